@@ -66,7 +66,7 @@ TStart ==
     /\ minGen' = IF Plugin /\ Len(Ev.gens) = 1 THEN Ev.gens[1] ELSE minGen
     /\ verdict' = IF "err" \in DOMAIN Ev THEN "Error"
                   ELSE IF Plugin /\ Ev.rc # 1 THEN "InitFailed"
-                  ELSE IF flows THEN (IF Ev.out.exists THEN "Flows-Touched" ELSE "ok")
+                  ELSE IF flows THEN FlowsLaw(Ev.out)
                   ELSE IF CleanLaw(Ev.out) # "ok" THEN CleanLaw(Ev.out)
                   ELSE IF Plugin /\ Ev.disc.total # dexp THEN "Restart-DiscoveryLost"
                   ELSE GenLaw(Ev.gens, TRUE)
@@ -123,7 +123,7 @@ TBatch ==
                          ELSE IF "err" \in DOMAIN Ev THEN "Error"
                          ELSE IF Ev.rc # 1 THEN "FlushFailed"
                          ELSE IF dlaw(keep) # "ok" THEN dlaw(keep)
-                         ELSE IF flows THEN (IF out.exists THEN "Flows-Touched" ELSE "ok")
+                         ELSE IF flows THEN FlowsLaw(out)
                          ELSE IF ~out.ok THEN "Unreadable"
                          ELSE IF olaw # "ok" THEN olaw
                          ELSE IF tlaw # "ok" THEN tlaw
